@@ -75,7 +75,7 @@ def main():
         if not good:
             bad += 1
             for l in out.splitlines():
-                if l.startswith("  ") and "violated" in l or "undecided" in l or "cannot analyse" in l:
+                if "  violated  " in l or "  undecided  " in l or "cannot analyse" in l:
                     print("     ", l[:300])
     if not a.keep:
         sh(f"git -C {SCRATCH} checkout -- . && git -C {SCRATCH} clean -fdq")
